@@ -304,6 +304,51 @@ def fullword_contexts():
     return cases
 
 
+# ---------------------------------------------------------------- very long strings (literals beyond 64 KiB)
+def gen_long_case(rng):
+    """Family checked on the PYTHON side (direct search for the encodings), not through the Coq model: evaluating
+    the list-based model on a 70 KB literal / 150 KB input under vm_compute is out of budget.  Shapes: ascii, wide,
+    ascii+wide, optionally nocase or a single xor key; no fullword, no base64 (nothing ambiguous: one encoding per
+    offset)."""
+    n = rng.choice([66000, 70000, 40000, 33000, 65540, 65535])
+    text = rng.bytes(n, b"abcdefghijklmnopqrstuvwxyzABCDEFGHIJKLMNOPQRSTUVWXYZ0123456789")
+    aw = rng.choice([(True, False), (False, True), (True, True)])
+    d = {"text": text.hex(), "ascii": aw[0], "wide": aw[1], "nocase": False, "fullword": False, "xor": None, "b64": None}
+    k = rng.below(4)
+    if k == 0:
+        d["nocase"] = True
+    elif k == 1:
+        key = rng.range(1, 255)
+        d["xor"] = [key, key]
+        d["xor_style"] = 1
+    encs = encodings(d)
+    m = bytearray(rng.bytes(rng.range(0, 9), b" .-"))
+    for e, _ in rng.shuffle(encs):
+        if d["nocase"] and rng.chance(1, 2):
+            e = e.swapcase()
+        m += e + rng.bytes(rng.range(1, 5), b" .-\x00")
+    e0 = encs[0][0]
+    m += e0[:-1] + b"#"           # a near miss: last byte wrong
+    return {"decl": d, "mem": bytes(m).hex(), "params": {}, "profile": rng.choice(["speed", "memory"]), "tag": "long"}
+
+
+def long_expected(case):
+    d = case["decl"]
+    mem = bytes.fromhex(case["mem"])
+    hay = mem.lower() if d["nocase"] else mem
+    found = {}
+    for e, _ in encodings(d):
+        pat = e.lower() if d["nocase"] else e
+        i = hay.find(pat)
+        while i >= 0:
+            found.setdefault(i, len(e))
+            i = hay.find(pat, i + 1)
+    key = d["xor"][0] if d["xor"] is not None else 0
+    cap = case.get("params", {}).get("match_max_length", 512)
+    return [{"base": 0, "offset": o, "length": found[o], "key": key, "data": mem[o:o + min(found[o], cap)].hex()}
+            for o in sorted(found)]
+
+
 class C01(Prop):
     ID = "C01"
     LEVEL = "proof"
@@ -321,7 +366,10 @@ class C01(Prop):
             "spliced from true encodings of the declaration, near misses (bit flip, case flip, deletion), "
             "overlapping / abutting / truncated occurrences and delimiter bytes (alnum / NUL / other at distance 1 "
             "and 2, wide pairs). The fullword neighbourhood table (4^4 contexts x ascii/wide) is enumerated "
-            "completely. Compared: the full (base, offset, length, key, data) list. Non-trivial: the input holds at "
+            "completely. Compared: the full (base, offset, length, key, data) list. A few very "
+            "long strings per run (33 000 - 70 000 characters, literals beyond 64 KiB once widened; ascii / wide / both, "
+            "nocase or one xor key) are checked on the Python side against a direct search for the encodings, not "
+            "through the Coq model (a 70 KB literal is out of vm_compute's budget with the list-based model). Non-trivial: the input holds at "
             "least one true occurrence and one near miss; distinct by (declaration, input).")
     TRUSTED = ["Coq 8.16.1 kernel + vm_compute", "harness/src/scan.rs (generic compile+scan driver)",
                "vlib/props/c01.py (prints the declaration as YARA text with \\xNN escapes for boreal and as a Gallina "
@@ -361,6 +409,7 @@ class C01(Prop):
         cases = []
         if ctx.tier == "thorough" or n >= 400:
             cases += fullword_contexts()
+        cases += [gen_long_case(rng.fork("long%d" % i)) for i in range(4 if ctx.tier == "quick" else 24)]
         i = 0
         while len(cases) < n:
             cases.append(self.gen_case(rng.fork("c%d" % i)))
@@ -392,17 +441,24 @@ class C01(Prop):
         if not isinstance(out, dict) or "rules" not in out:
             return (False, False, 0)      # compile error / panic / crash on a legal declaration
         ms = string_matches(out, "r", "a")
+        if case.get("tag") == "long":
+            ok = ms == long_expected(case)
+            ctx.count("long-literal family (python-side oracle)")
+            return (ok, ok, 0)
         ctx.count("matches=%s" % ("0" if not ms else "1" if len(ms) == 1 else "2-5" if len(ms) <= 5 else ">5"))
         return "C01_case %s %s %s %s" % (g_decl(case["decl"]), gbytes(bytes.fromhex(case["mem"])),
                                          g_prm(case.get("params", {})), glist([g_smatch(m) for m in ms]))
 
     def nontrivial(self, case, out):
+        if case.get("tag") == "long":
+            return json.dumps([case["decl"]["text"][:64], len(case["decl"]["text"]), case["decl"]["ascii"],
+                               case["decl"]["wide"], case["decl"]["nocase"], case["decl"]["xor"]])
         if case.get("tag") in ("occ", "fullword-table", "corpus"):
             return json.dumps([case["decl"], case["mem"]], sort_keys=True)
         return None
 
     def sample(self, case, out):
-        return {"decl": decl_yara("a", case["decl"]), "mem": case["mem"][:120],
+        return {"decl": decl_yara("a", case["decl"])[:200], "mem": case["mem"][:120],
                 "impl_matches": string_matches(out or {}, "r", "a")[:6] if isinstance(out, dict) else out}
 
     def extra_search(self, ctx, rng, around):
